@@ -537,12 +537,45 @@ def c04_argname(name: str) -> bool:
     return ok
 
 
+def c04_same_name_typedefs(layout: int, order: int, where: int) -> bool:
+    """
+    Two same-named class templates in different namespaces, instantiated by typedefs written at global scope or inside
+    a namespace from which one of the root-qualified names could also be read relatively: each Python class is
+    registered for the C++ type its typedef names from the root, and its constructor / method lambdas forward to that
+    type's own members.
+    pre: 0 <= layout < 5 and 0 <= order <= 1 and 0 <= where <= 2
+    post: _
+    """
+    from harness import c03_census
+    layout, order, where = pick(layout, 0, 5), pick(order, 0, 2), pick(where, 0, 3)
+    with concrete():
+        text, problems = c03_census.same_name_registered(layout, order, 0, where)
+        if not problems:
+            body = pipe.pybind_body(text)
+            from harness import c08_product as P
+            _t, want = P.build_same_name(layout, order, where=where)
+            for e in readers.parse_pybind(body):
+                if e["ent"] != "class" or e["name"] not in want:
+                    continue
+                cpp = want[e["name"]][0]
+                for d in e["defs"]:
+                    if d["kind"] == "def" and d.get("params") and d["params"][0][1] == "self" and d["params"][0][0].replace(" ", "") != (cpp + "*").replace(" ", ""):
+                        problems.append("%s.%s: self is %r, the class is %s" % (e["name"], d["name"], d["params"][0][0], cpp))
+                    if d["kind"] == "def_static" and str(d.get("callee", "")).replace(" ", "") != (cpp + "::" + str(d.get("name"))).replace(" ", ""):
+                        problems.append("%s.%s does not call %s::%s" % (e["name"], d.get("name"), cpp, d.get("name")))
+        ok = not problems or _fail(text=text, problems=problems)
+    reached({"layout": layout, "order": order, "where": where})
+    return ok
+
+
 def conds(tier):
     q = tier == "quick"
     t = (lambda a, b: a) if q else (lambda a, b: b)
     M = "harness.c04"
     sb = "shape-bounded"
     return [
+        xh.Cond(M, "c04_same_name_typedefs", t(120, 600), kind=sb, examples=["layout=1, order=0, where=1", "layout=2, order=1, where=1", "layout=4, order=0, where=2", "layout=0, order=0, where=0"],
+                bounds="5 namespace layouts of two same-named templates x 2 typedef orders x 3 places of the typedef block"),
         xh.Cond(M, "c04_ctor", t(300, 2400), path_timeout=60, kind=sb, examples=["n=2, k=1, t0=3, t1=0, flavour=0, nsdepth=1", "n=3, k=2, t0=4, t1=0, flavour=1, nsdepth=0"],
                 bounds="0-3 args x every default count x %d first-argument types (2nd/3rd derived) x class template on/off%s" % (NPOOL, " x namespace depth 0-2" if not q else "; namespace depth derived")),
         xh.Cond(M, "c04_method", t(300, 2400), path_timeout=60, kind=sb, examples=["n=2, k=1, t0=2, t1=0, r=3, flavour=0", "n=1, k=0, t0=5, t1=0, r=5, flavour=2"],
